@@ -158,8 +158,46 @@ def infeasible_pattern_masking(ctx, rule='A5m'):
                 isinstance(atom.comparators[0], ast.Constant) and atom.comparators[0].value == 0 and \
                 ((isinstance(atom.ops[0], ast.Eq) and truth is True) or
                  (isinstance(atom.ops[0], (ast.NotEq, ast.Gt)) and truth is False))
-        guards.check_guarded(ctx, rule, fn, stores, empty_fact, set(), 'mark-only-empty',
-                             'a pattern is marked -1 only under the test that its aggregate matrix has zero rows')
+        # collect-then-apply form: the marked pattern indices come from a collection filtered by the same test
+        assigns = [a for a in walk_fn(fn) if isinstance(a, ast.Assign) and isinstance(a.targets[0], ast.Name)]
+
+        def filtered_names():
+            names = set()
+            for a in assigns:
+                for c in ast.walk(a.value):
+                    if isinstance(c, (ast.ListComp, ast.SetComp, ast.GeneratorExp)) and \
+                            any(empty_fact(i, True) for g in c.generators for i in g.ifs):
+                        names.add(a.targets[0].id)
+            changed = True
+            while changed:
+                changed = False
+                for a in assigns:
+                    if a.targets[0].id not in names and isinstance(a.value, ast.Call) and \
+                            call_name(a.value) in ('set', 'list', 'tuple', 'sorted', 'frozenset', 'array') and \
+                            a.value.args and isinstance(a.value.args[0], ast.Name) and a.value.args[0].id in names:
+                        names.add(a.targets[0].id)
+                        changed = True
+            return names
+        fnames = filtered_names()
+
+        def from_collection(st):
+            # existence_map[np.isin(existence_map, <filtered>)] = -1  /  {...: -1 if i in <filtered> else i ...}
+            for c in ast.walk(st.ast):
+                if isinstance(c, ast.Call) and call_name(c) == 'isin' and len(c.args) == 2 and \
+                        isinstance(c.args[1], ast.Name) and c.args[1].id in fnames:
+                    return True
+                if isinstance(c, ast.Compare) and len(c.ops) == 1 and isinstance(c.ops[0], ast.In) and \
+                        isinstance(c.comparators[0], ast.Name) and c.comparators[0].id in fnames:
+                    return True
+            return False
+        direct = [st for st in stores if not from_collection(st)]
+        for i, st in enumerate(st for st in stores if from_collection(st)):
+            ctx.ob(rule, fkey(fn, rule, f'mark-only-empty:collected#{i}'), True, f'{fn.module.relpath}:{st.lineno}',
+                   'the patterns marked -1 are those collected under the test that their aggregate matrix has zero '
+                   'rows', short(st.ast, 80))
+        if direct:
+            guards.check_guarded(ctx, rule, fn, direct, empty_fact, set(), 'mark-only-empty',
+                                 'a pattern is marked -1 only under the test that its aggregate matrix has zero rows')
         n += 1
     # (ii) _get_des_vars clears the mask where the map is -1
     fn = ctx.fn(f'{GP}._get_des_vars')
